@@ -971,6 +971,97 @@ def silent_connections_case(n_silent):
                     'in three attempts' % (n_silent, worst), case)
 
 
+def vanishing_sender_case(ending, nfrag, n_vanish=2):
+    """Associations whose peer vanishes ('close') or aborts ('abort') in the MIDDLE of a C-STORE - command set and `nfrag`
+    fragments of a big data set delivered, the rest never - are over; ordinary associations that store SHORTER instances
+    on the same entity afterwards get exactly what they sent (nothing of the interrupted transfers) and are served."""
+    import socket
+    import time
+    import pydicom
+    from pynetdicom2 import applicationentity, sopclass, statuses
+    from .. import convs, refpdu, refcmd, dimsegen as dg
+    from .c14 import _read_pdu
+    case = {'part': 'vanishing-sender', 'ending': ending, 'nfrag': nfrag, 'n': n_vanish}
+    got = []
+
+    class Server(applicationentity.AE):
+        def on_receive_store(self, context, ds):
+            raw = ds.read()
+            got.append(raw)
+            return statuses.SUCCESS
+    ae = Server('SRV', 0, None, 16384)
+    ae.timeout = 5
+    ae.add_scp(sopclass.verification_scp).add_scp(sopclass.storage_scp)
+    big = svc.enc_ds(svc.simple_ds(PatientName='INTERRUPTED^TRANSFER', PatientID='GHOST', SOPClassUID=convs.STORE_UID,
+                                   SOPInstanceUID='1.2.826.0.1.3680043.9.20.66.1', PixelData=b'\xEE' * 60000))
+    cmd = refcmd.encode({0x0002: convs.STORE_UID, 0x0100: 0x0001, 0x0110: 7, 0x0700: 0, 0x0800: 0x0001,
+                         0x1000: '1.2.826.0.1.3680043.9.20.66.1'})
+    pdvs = dg.ref_fragments(cmd, big, 4096, 3)
+    sent_small = []
+    err = None
+    with lb.quiet_stderr(), lb.serving(ae) as port:
+        for _ in range(n_vanish):
+            conn = socket.create_connection(('127.0.0.1', port), timeout=5)
+            try:
+                conn.sendall(refpdu.enc_pdu(convs.RQ_SPEC))
+                ac = _read_pdu(conn)
+                if ac is None or ac[0] != 2:
+                    raise HarnessError('raw peer: association not accepted (%r)' % (ac[:1] if ac else None,))
+                for v in pdvs[:1 + nfrag]:
+                    conn.sendall(refpdu.enc_pdu({'t': 4, 'r': 0, 'pdvs': [v]}))
+                if ending == 'abort':
+                    conn.sendall(refpdu.enc_pdu({'t': 7, 'r1': 0, 'r2': 0, 'r3': 0, 'source': 0, 'reason': 0}))
+                    time.sleep(0.1)
+            finally:
+                conn.close()
+        time.sleep(0.5)      # (the entity notices the endings)
+        try:
+            for k in range(3):
+                cae = applicationentity.ClientAE('CLI%d' % k, [svc.IMPLICIT])
+                cae.timeout = 8
+                cae.add_scu(sopclass.storage_scu, [convs.STORE_UID])
+                ds = svc.simple_ds(PatientName='SMALL^%d' % k, PatientID='P%d' % k, SOPClassUID=convs.STORE_UID,
+                                   SOPInstanceUID='1.2.826.0.1.3680043.9.20.67.%d' % k)
+                with cae.request_association({'aet': 'SRV', 'address': '127.0.0.1', 'port': port}) as assoc:
+                    status = int(assoc.get_scu(convs.STORE_UID)(ds, k + 1))
+                sent_small.append((ds, status))
+        except Exception as exc:     # noqa
+            err = exc
+    if err is not None:
+        raise Violation('%s:vanishing-sender:later-association-fails:%s' % (PROP, lib_frame(err)), 'after %d associations whose peer '
+                        'ended (%s) in the middle of a C-STORE, an ordinary store on the same entity raised %r' % (n_vanish, ending, err), case)
+    if len(got) != len(sent_small):
+        raise Violation('%s:vanishing-sender:handler-calls' % PROP, '%d complete instances were stored, the handler was called %d times '
+                        '(an interrupted transfer is no instance)' % (len(sent_small), len(got)), case)
+    import io
+    for k, ((ds, status), raw) in enumerate(zip(sent_small, got)):
+        if status != 0:
+            raise Violation('%s:vanishing-sender:status' % PROP, 'store %d returned %04XH' % (k + 1, status), case)
+        try:
+            back = pydicom.dcmread(io.BytesIO(raw))
+            body = pydicom.dataset.Dataset({kk: vv for kk, vv in back.items()})
+            same = svc.ds_equal(body, ds) and raw.endswith(svc.enc_ds(ds))
+        except Exception:     # noqa
+            same = False
+        if not same:
+            raise Violation('%s:vanishing-sender:foreign-data' % PROP, 'store %d on a later association: the handler was given %d bytes '
+                            'that are not the %d-byte instance sent (bytes of an interrupted transfer of ANOTHER association?)'
+                            % (k + 1, len(raw), len(svc.enc_ds(ds))), case)
+
+
+def shard_vanishing(ctx, job):
+    quiet_warnings()
+    ctx.case(('vanishing-sender', job['ending'], job['nfrag']), True, labels=['loopback', 'sender vanishes mid-C-STORE, later associations store'],
+             sample={'ending': job['ending'], 'data fragments delivered': job['nfrag']})
+    try:
+        lb.reproduced(vanishing_sender_case, job['ending'], job['nfrag'])
+    except lb.Inconclusive:
+        ctx.inconclusive += 1
+        ctx.label('inconclusive')
+    except Violation as v:
+        ctx.fail(v.key, v.what, v.case)
+
+
 def _fresh_echo_server():
     from pynetdicom2 import applicationentity, sopclass
     ae = applicationentity.AE('SRV', 0, None, 16384)
@@ -1031,6 +1122,7 @@ def run(ctx):
     # (in worker processes: handler threads of the silent connections live on until their time-out and would slow
     #  down everything that follows in this process)
     parallel(ctx, shard_silent, [{'n': 1}, {'n': 3}], procs=2)
+    parallel(ctx, shard_vanishing, [{'ending': e, 'nfrag': k} for e in ('close', 'abort') for k in ((0, 3, 9) if ctx.thorough else (3,))], procs=4)
     run_negotiation(ctx, 3000 if ctx.thorough else 200)
     run_decoders(ctx, 4000 if ctx.thorough else 300)
     s = ctx.seed
@@ -1055,6 +1147,8 @@ def replay(case):
         thread_stress(8, 200)
     elif case['part'] == 'silent-connections':
         silent_connections_case(case['n'])
+    elif case['part'] == 'vanishing-sender':
+        vanishing_sender_case(case['ending'], case['nfrag'], case.get('n', 2))
     elif case['part'] == 'long-lived':
         long_lived_server([tuple(p) for p in case['program']])
     elif case['part'] == 'decoders':
